@@ -20,9 +20,7 @@ def leafName : Leaf → String
 partial def nodeJ : Node → J
   | .none => J.null
   | .leaf c n p => J.arr [J.s (leafName c), nameJ n, J.int p]
-  -- use_hash is reported modulo the benign write of Symbol.generate_lingo (objects shared through the peek opcode make
-  -- Python's flag flip on copies the model keeps separate; the flag is never read for such names)
-  | .sym n p uh => J.arr [J.s "Symbol", nameJ n, J.int p, J.bool (uh && !nameInList Gen.PropTables.knownSymbolsConstant n)]
+  | .sym n p uh => J.arr [J.s "Symbol", nameJ n, J.int p, J.bool uh]
   | .unary op p x => J.arr [J.s "UnaryOperation", J.str op, J.int p, nodeJ x]
   | .binary op p l r => J.arr [J.s "BinaryOperation", J.str op, J.int p, nodeJ l, nodeJ r]
   | .spAssign p l r m => J.arr [J.s "SpAssignOperation", J.s "assign", J.int p, nodeJ l, nodeJ r, J.str m]
@@ -36,13 +34,13 @@ partial def nodeJ : Node → J
   | .toList p x => J.arr [J.s "ToListOperation", J.s "to_list", J.int p, nodeJ x]
   | .toDict p x => J.arr [J.s "ToDictionaryOperation", J.s "to_dict", J.int p, nodeJ x]
   | .stmt p c => J.arr [J.s "Statement", J.s "statement", J.int p, nodeJ c]
-  | .callFn n p ps up it wr => J.arr [J.s "CallFunction", nameJ n, J.int p, nodeJ ps, J.bool up, J.bool it, J.bool wr]
+  | .callFn n p ps up it wr rc => J.arr [J.s "CallFunction", nameJ n, J.int p, nodeJ ps, J.bool up, J.bool it, J.bool wr, nodeJ rc]
   | .callMethod n p o ps => J.arr [J.s "CallMethod", nameJ n, J.int p, nodeJ o, nodeJ ps]
-  | .repeat_ p e c l t st v sg => J.arr [J.s "RepeatOperation", J.s "repeat", J.int p, J.int e, nodeJ c, J.arr (l.map nodeJ), J.str t, nodeJ st, nameJ v, J.str sg]
+  | .repeat_ p e c l t st v sg vr => J.arr [J.s "RepeatOperation", J.s "repeat", J.int p, J.int e, nodeJ c, J.arr (l.map nodeJ), J.str t, nodeJ st, nameJ v, J.str sg, nodeJ vr]
   | .ifThen p c a b => J.arr [J.s "IfThenOperation", J.s "if-then", J.int p, nodeJ c, J.arr (a.map nodeJ), J.arr (b.map nodeJ)]
   | .jump p a => J.arr [J.s "JumpOperation", J.s "jump", J.int p, J.int a]
   | .jz p c a => J.arr [J.s "JzOperation", J.s "jz", J.int p, nodeJ c, J.int a]
-  | .tell p o l => J.arr [J.s "WindowTellOperation", J.s "tell", J.int p, nodeJ o, J.arr (l.map nodeJ)]
+  | .tell p o l cl => J.arr [J.s "WindowTellOperation", J.s "tell", J.int p, nodeJ o, J.arr (l.map nodeJ), J.bool cl]
 
 def funcJ (f : FuncDef) : J :=
   J.obj [("name", J.str f.name), ("pos", J.int f.pos), ("params", J.arr (f.params.map nodeJ)), ("locals", J.arr (f.localVars.map nodeJ)),
@@ -158,6 +156,11 @@ def run : List String → Option String
     let b ← bytesOfHex h
     some (match decodeUtf8 b with
       | .ok s => (match evalLingoLit s with | some v => J.str v | none => J.null).render
+      | .error _ => "bad-op")
+  | ["evallingo2", h] => do
+    let b ← bytesOfHex h
+    some (match decodeUtf8 b with
+      | .ok s => (match evalLingoLitRD s with | some v => J.str v | none => J.null).render
       | .error _ => "bad-op")
   | ["evaljs", h] => do
     let b ← bytesOfHex h
